@@ -67,12 +67,15 @@ def _parse_tlc(out, res):
     m2 = re.search(r"Action property (\S+) is violated|Temporal properties were violated|property (\S+) is violated", out)
     if m2 and not res.violated:
         res.violated = m2.group(1) or m2.group(2) or "temporal"
+    mc = re.search(r"The invariant of (\S+) is equal to FALSE", out)
+    if mc and not res.violated:
+        res.violated = mc.group(1)
     if "Deadlock reached" in out and not res.violated:
         res.violated = "Deadlock"
     if re.search(r"Error: (?!Invariant|Action property|Temporal|Deadlock|The behavior up to)", out) and not res.violated:
         em = re.search(r"Error: (.*)", out)
         # "Error: The behavior up to this point is:" accompanies a violation; others are tool errors
-        if em and "behavior up to" not in em.group(1):
+        if em and "behavior up to" not in em.group(1) and "is equal to FALSE" not in em.group(1):
             res.error = em.group(1)[:500]
     for cm in re.finditer(r"^<(\w+) line \d+, col \d+ to line \d+, col \d+ of module (\w+)>: (\d+):(\d+)", out, re.M):
         res.coverage[cm.group(2) + "!" + cm.group(1)] = int(cm.group(4))
